@@ -21,6 +21,9 @@ pub uninterp spec fn method_text(m: Method) -> Seq<char>;
 impl Method {
     #[verifier::external_body]
     pub fn as_str(&self) -> (r: &str) ensures r@ == method_text(*self) { unimplemented!() }
+    /// <http::Method as Display>::to_string: the same text as as_str
+    #[verifier::external_body]
+    pub fn to_string(&self) -> (r: String) ensures r@ == method_text(*self) { unimplemented!() }
 }
 /// str::to_uppercase (W1 `.to_uppercase()` -> `.to_uppercase_()`): an uninterpreted function of the text
 pub uninterp spec fn upper(s: Seq<char>) -> Seq<char>;
